@@ -77,7 +77,7 @@ def run(ctx):
     ok = i_none is not None and i_set is not None and i_none < i_set
     ctx.ob("C40.D3-only-when-enabled", cname(opn, None, "the descriptor uid is None unless recording"), ok, "" if ok else "the enabling uid is not reset per run", where=where(opn, opn.node))
     ri = rm.b("record_interruption")
-    top = [s for s in ri.node.body if not (isinstance(s, ast.Expr) and isinstance(s.value, ast.Constant))]
+    top = A.body(ri.node)
     ok = len(top) == 1 and isinstance(top[0], ast.If) and A.norm(top[0].test) == "self._interruptions_desc_uid is not None" and not top[0].orelse
     ctx.ob("C40.D3-only-when-enabled", cname(ri, None, "no-op unless the stream exists"), ok, "" if ok else "record_interruption acts without an interruptions stream", where=where(ri, ri.node))
     body = top[0].body if ok else ri.node.body
